@@ -123,7 +123,7 @@ def grid(kind, n):
     raise KeyError(kind)
 
 
-GRIDS = [('A', n) for n in (4, 5, 6, 7, 8, 10)] + [('B', 8)]
+GRIDS = [('A', n) for n in (4, 5, 6, 7, 8, 10, 12)] + [('B', 8)]
 
 
 def lay1(g, code):
@@ -395,6 +395,77 @@ def _lpe(lay, xl):
     return {'cov': cov}, (lambda a: _LP().probability_enough_individuals_covered(a['cov'], 6, 4))
 
 
+# ---- low-pass correction of a 2-D model (hash-seed sensitive path: dict of per-population coverage) ---------------
+def lowpass_dd_fix():
+    """SNP dictionary with per-individual depths for two populations of CLEARLY different coverage
+    (3 diploid individuals each): YRI ~ 8-12x, CEU ~ 0-2x."""
+    yri = [[9, 11, 8], [10, 12, 9], [8, 9, 11], [12, 10, 10], [9, 8, 12], [11, 11, 9]]
+    ceu = [[1, 0, 2], [0, 1, 1], [2, 1, 0], [1, 1, 1], [0, 2, 1], [1, 0, 0]]
+    return {'snp%d' % k: {'coverage': {'YRI': yri[k], 'CEU': ceu[k]}} for k in range(6)}
+
+
+def model_2d(p, ns, pts):
+    import dadi
+    xx = dadi.Numerics.default_grid(pts if not hasattr(pts, '__len__') else pts[0])
+    phi = dadi.PhiManip.phi_1D(xx)
+    phi = dadi.PhiManip.phi_1D_to_2D(xx, phi)
+    phi = dadi.Integration.two_pops(phi, xx, p[1], nu1=p[0], nu2=1.0, m12=0.5, m21=0.5)
+    return dadi.Spectrum.from_phi(phi, ns, (xx, xx))
+
+
+# Population labels: the order of set(['YRI', 'CEU']) (which a dict built by iterating over a set inherits) is
+# ['YRI', 'CEU'] under PYTHONHASHSEED 0, 3, 11, 12 and ['CEU', 'YRI'] under 1, 2, 13 (verified by experiment with
+# this interpreter): the replay seeds {0, 1} and the fresh-interpreter seeds {11, 13} of the quick tier each contain
+# both classes (thorough: {0, 1, 2} and {11, 12, 13}).
+@reg('lowpass_func_2d', 'LowPass.make_low_pass_func_GATK_multisample')
+def _lpf(lay, xl):
+    def run(a):
+        LP = _LP()
+        cov_dist = LP.compute_cov_dist(lowpass_dd_fix(), a['pop_ids'])
+        f = LP.make_low_pass_func_GATK_multisample(model_2d, cov_dist, a['pop_ids'], a['nseq'], a['nsub'], sim_threshold=1.0)   # analytic: no RNG
+        return f(a['params'], a['nsub'], 8)
+    return {'pop_ids': ['YRI', 'CEU'], 'nseq': [6, 6], 'nsub': [4, 4], 'params': [1.5, 0.05]}, run
+
+
+@reg('lowpass_cov_dist_2pop', 'LowPass.compute_cov_dist')
+def _lcd(lay, xl):
+    return {'pop_ids': ['YRI', 'CEU']}, (lambda a: _LP().compute_cov_dist(lowpass_dd_fix(), a['pop_ids']))
+
+
+# ---- demes graphs with ancient samples -------------------------------------------------------------------------------
+def demes_graph_fix():
+    import demes
+    b = demes.Builder(time_units='generations')
+    b.add_deme('anc', epochs=[dict(start_size=1000, end_time=400)])
+    b.add_deme('A', ancestors=['anc'], epochs=[dict(start_size=800)])
+    b.add_deme('B', ancestors=['anc'], epochs=[dict(start_size=1500)])
+    return b.resolve()
+
+
+def _mk_demes_sfs(name, site, times, fn):
+    @reg(name, site)
+    def mk(lay, xl):
+        g = demes_graph_fix()
+        args = {'sampled_demes': ['A', 'B'], 'sample_sizes': [4, 2]}
+        if times is not None:
+            args['sample_times'] = list(times)
+        return args, (lambda a: fn(g, a))
+
+
+def _D():
+    import dadi
+    import dadi.Demes
+    return dadi
+
+
+_mk_demes_sfs('demes_sfs_ancient', 'Demes.SFS', [0, 120],
+              lambda g, a: _D().Demes.SFS(g, a['sampled_demes'], a['sample_sizes'], 8, sample_times=a['sample_times']))
+_mk_demes_sfs('demes_sfs_present', 'Demes.SFS', None,
+              lambda g, a: _D().Demes.SFS(g, a['sampled_demes'], a['sample_sizes'], 8))
+_mk_demes_sfs('from_demes_ancient', 'Spectrum.from_demes', [0, 120],
+              lambda g, a: _D().Spectrum.from_demes(g, a['sampled_demes'], a['sample_sizes'], pts=[8, 10, 12], sample_times=a['sample_times']))
+
+
 # ---- integrators -------------------------------------------------------------------------------------
 INT_N = {1: 10, 2: 8, 3: 6, 4: 5, 5: 4}
 INT_FUNC = {1: 'one_pop', 2: 'two_pops', 3: 'three_pops', 4: 'four_pops', 5: 'five_pops'}
@@ -653,7 +724,8 @@ _mk_demes('demes_output_again_X', 'X', True)
 _mk_demes('demes_output_again_Y', 'Y', True)
 _mk_demes('demes_output_again_none', 'none', True)
 # any other call that appends to / resets the event log invalidates "the log is this model's"
-LOG_TOUCHING_SITES = ('Integration.', 'PhiManip.', 'Godambe.', 'Inference._object_func', 'Inference.optimize_grid')
+LOG_TOUCHING_SITES = ('Integration.', 'PhiManip.', 'Godambe.', 'Inference._object_func', 'Inference.optimize_grid',
+                      'LowPass.make_low_pass_func', 'Demes.SFS', 'Spectrum.from_demes')
 
 
 # --------------------------------------------------------------------------------------------------
@@ -791,10 +863,6 @@ def _bb_tag(a, b):
             be[0], be[-1] = (1.0 - 1.0e-20) * ((1.0 - Fx) / Fx), 1.0e-20 * ((1.0 - Fx) / Fx)
             for j in range(n):
                 _BB_TAGS[(float(al[j]), float(be[j]))] = ['G', gname, Fs, j + 1]
-        for nseq, Fx, Fs in ((6, 0.25, '1/4'),):
-            for s_ in range(1, nseq):
-                pp = s_ / (2 * (nseq // 2))
-                _BB_TAGS[(pp * ((1.0 - Fx) / Fx), (1.0 - pp) * ((1.0 - Fx) / Fx))] = ['LP', str(nseq), Fs, s_]
         _BB_TAGS[(0.75, 1.25)] = ['raw', '3/4', '5/4', 0]
     return _BB_TAGS.get((float(a), float(b)), ['?', _rat(a), _rat(b), 0])
 
